@@ -84,7 +84,7 @@ GROUP = dict(
         "C12": dict(invariants=["KinTime", "KinOffset", "KinBack", "KinDist", "LocLink", "LocSum", "LocRange",
                                 "NoPanic", "QOverflow", "HarnessOk"],
                     assumptions=A_COMMON + A_SL),
-        "C14": dict(invariants=["FollowTime", "FollowSpeed", "MassCompound", "PwrAccel", "PwrRes", "PwrClip",
+        "C14": dict(invariants=["FollowTime", "FollowSpeed", "MassCompound", "PwrAccel", "PwrRes", "PwrClip", "PwrDynCap",
                                 "PwrEnergy", "PwrEnergyPos", "PwrEnergyNeg", "NegSpeedRejected", "RefusedOnlyNegative",
                                 "NoPanic", "QOverflow", "HarnessOk"],
                     assumptions=A_COMMON + A_TOY),
